@@ -92,10 +92,12 @@ ViewC(e) == LET bm == regs[e.reg]
         <<"raw_encoding", Len(e.raw) = n /\ \A k \in 1..n : e.raw[k] = Raw(bm.cells[k], bm.dmax)>>,
         <<"deep_size", e.deep = DeepSizeBig(bm.cells, bm.dmax) /\ e.hint = 1>>,
         <<"ranges", e.ranges = RangesOf(bm.cells, bm.dmax, <<>>)>>,
-        <<"flat", e.small = 0 \/ (LET fl == Flat(bm.cells, bm.dmax) IN
+        (* the expansion is evaluated only when the specification's own value is small too (a corrupted register must
+           not make TLC expand 4^29 cells) *)
+        <<"flat", e.small = 0 \/ ((LET ds == DeepSizeBig(bm.cells, bm.dmax) IN Len(ds) = 1 /\ ds[1] <= 2000) /\ (LET fl == Flat(bm.cells, bm.dmax) IN
                      /\ e.flat = [k \in 1..Len(fl) |-> [b |-> fl[k].b, p |-> fl[k].p]]
                      /\ e.flatarr = e.flat
-                     /\ e.flatcell = fl)>> >>
+                     /\ e.flatcell = fl))>> >>
 
 (* ---- cone coverage (C05, C06): metric facts are measured by the bridge, the structure is judged here ---- *)
 TolFull == 1000          \* 1e-12 rad, in units of 1e-15 rad (plus the radius-proportional part e.rtol = 1e-9 * r)
